@@ -24,6 +24,9 @@ FAMILIES = {
     'l1.perm': dict(module='MC_L1', fam='perm', walker='l1-walk', scale=U63,
                     invariants=[], properties=['P_GrantOnlyIf'],
                     failcap=dict(quick=1, thorough=2), timeout=dict(quick=420, thorough=3000)),
+    'l1.window': dict(module='MC_L1', fam='window', walker='l1-walk', scale=U63, tickscale=str(2**33),
+                      invariants=['Inv_Oracle', 'Inv_PositivePeriod'], properties=['P_WindowHonoured', 'P_FinalIrreversible', 'P_DeleteRule', 'P_ProposeRule'],
+                      failcap=dict(quick=1, thorough=2), timeout=dict(quick=300, thorough=1800)),
     'l1.trees': dict(module='MC_L1', fam='trees', walker='l1-walk', scale=U63,
                      invariants=[], properties=['P_Soundness', 'P_EscrowDelta', 'P_NoEffectOnReject'],
                      failcap=dict(quick=1, thorough=2), timeout=dict(quick=420, thorough=3000)),
@@ -85,7 +88,7 @@ PROPERTIES = {
     'C02': dict(traces=['l1'], families=['l1.claims'], title='withdrawal paid at most once'),
     'C03': dict(traces=['l1'], families=['l1.claims'], title='withdrawals cannot be forged'),
     'C04': dict(families=['br.one', 'l1.trees'], title='every recorded withdrawal can be claimed'),
-    'C05': dict(traces=['l1'], families=['l1.oracle'], title='challenge window / finality'),
+    'C05': dict(traces=['l1'], families=['l1.oracle', 'l1.window'], title='challenge window / finality'),
     'C06': dict(traces=['l2'], families=['l2.relay', 'l2.deposit'], title='L2 credits each deposit exactly once, in order'),
     'C07': dict(traces=['l2'], families=['l2.deposit'], title='deposit neither lost nor blocking; hooks contained'),
     'C08': dict(families=['br.one'], title='end-to-end solvency'),
